@@ -940,6 +940,94 @@ class JoinCommonMethod(JoinBeginMethod):
                 + self.block(self.fdef.body, self.default_end))
 
 
+class SelectApplySkipMethod(Method):
+    """`sql.Select.apply_skip(skip_to, sort, projection, deduplication, slice)` (T-f) over the model's `Slots` record
+    (`sort=None` and `Sort()` are both the empty term list, `slice=None` and `Slice()` both `(0, none)` - the two
+    normalising statements at the top of the method are therefore accepted and dropped).  Each
+    `target = <op>._finish_apply(target)` is monadic (`_finish_apply` may raise) and yields the new relation or the
+    target itself."""
+
+    COND = {
+        "sort.terms": "(!sl.sort.isEmpty)",
+        "projection is not None": "sl.proj.isSome",
+        "deduplication is not None": "sl.dedup",
+        "slice.start or slice.limit is not None": "(sl.sliceStart != 0 || sl.sliceStop.isSome)",
+    }
+    OPS = {
+        "sort": "(UOp.sort sl.sort)", "projection": "(UOp.proj (sl.proj.getD []))", "deduplication": "UOp.dedup",
+        "slice": "(UOp.slice sl.sliceStart sl.sliceStop)",
+    }
+
+    def __init__(self, cls):
+        self.cls = cls
+        self.cname = "Select"
+        self.name = "apply_skip"
+        f = inspect.getattr_static(cls, "apply_skip")
+        f = getattr(f, "__func__", f)
+        src = textwrap.dedent(inspect.getsource(f))
+        self.fdef = next(n for n in ast.walk(ast.parse(src)) if isinstance(n, ast.FunctionDef))
+        self.env = {}
+        self.counter = 0
+        self.compound = "false"
+
+    def block(self, stmts, rest_k):
+        if not stmts:
+            return rest_k()
+        s, tail = stmts[0], stmts[1:]
+        k = lambda: self.block(tail, rest_k)   # noqa: E731
+        src = ast.unparse(s)
+        if isinstance(s, ast.Expr) and isinstance(s.value, ast.Constant):
+            return k()
+        if src == "target = skip_to":
+            self.env["target"] = "skipTo"
+            return k()
+        if src in ("if sort is None:\n    sort = Sort()", "if slice is None:\n    slice = Slice()"):
+            return k()
+        if src == "is_compound = False":
+            self.compound = "false"
+            return k()
+        if isinstance(s, ast.Match) and ast.unparse(s.subject) == "skip_to" and len(s.cases) == 1 \
+                and ast.unparse(s.cases[0].pattern) == "BinaryOperationRelation(operation=Chain())" \
+                and len(s.cases[0].body) == 1 and ast.unparse(s.cases[0].body[0]) == "is_compound = True":
+            self.compound = "(isChain skipTo)"
+            return k()
+        if isinstance(s, ast.If) and not s.orelse and len(s.body) == 1 and ast.unparse(s.test) in self.COND:
+            b = s.body[0]
+            bsrc = ast.unparse(b)
+            for name, op in self.OPS.items():
+                if bsrc == f"target = {name}._finish_apply(target)":
+                    cur = self.env["target"]
+                    self.counter += 1
+                    v = f"target_{self.counter}"
+                    cond = self.COND[ast.unparse(s.test)]
+                    # both branches continue with the same code, over the new or the old target
+                    self.env["target"] = v
+                    rest = k()
+                    return (f"(match (if {cond} then (match UOp.finishApply {op} {cur} with "
+                            f"| Except.error e => Except.error e | Except.ok r => Except.ok (r.get {cur})) "
+                            f"else Except.ok {cur}) with | Except.error e => Except.error e "
+                            f"| Except.ok {v} => {rest})")
+            raise Untranslatable(f"conditional statement {bsrc[:50]}")
+        if isinstance(s, ast.Return):
+            c = s.value
+            if isinstance(c, ast.Call) and ast.unparse(c.func) == "cls":
+                kw = {x.arg: ast.unparse(x.value) for x in c.keywords}
+                want = {"target": "target", "projection": "projection", "deduplication": "deduplication",
+                        "sort": "sort", "slice": "slice", "skip_to": "skip_to", "is_compound": "is_compound"}
+                if kw == want and not c.args:
+                    return (f"(Except.ok (Rel.select 0 sl.sort sl.proj sl.dedup sl.sliceStart sl.sliceStop skipTo "
+                            f"{self.compound} {self.env['target']}))")
+            raise Untranslatable(f"return {src[:60]}")
+        raise Untranslatable(f"statement {src[:60]}")
+
+    def default_end(self):
+        raise Untranslatable("control reaches the end of the function")
+
+    def lean(self):
+        return ("def Select_apply_skip (skipTo : Rel) (sl : Slots) : Except Err Rel :=\n  "
+                + self.block(self.fdef.body, self.default_end))
+
+
 REL_CTORS = {
     "LeafRelation": ".leaf _ _ _ _ _ _ _ _",
     "Materialization": ".mat _ _ {t}",
@@ -1074,13 +1162,23 @@ class ChainMethod(Method):
                 + self.block(self.fdef.body, self.default_end))
 
 
-def gen_rel_ops(problems: list[str]) -> str:
+# which generated module each T-f job goes to: a translation problem (and a broken bridge) then concerns only the
+# properties whose theorems depend on that module
+REL_JOB_MODULE = {
+    "PartialJoin._begin_apply": "JoinOps", "Join.applied_common_columns": "JoinOps", "Join._begin_apply": "JoinOps",
+    "Join._finish_apply": "JoinOps", "Select.apply_skip": "SqlOps",
+}
+
+
+def gen_rel_ops(problems: list[str], module: str = "RelOps") -> str:
     import lsst.daf.relation as r
     from lsst.daf.relation._operations._join import PartialJoin
 
     out = ["/- GENERATED by harness/extract_ops.py from the current source -- do not edit. -/",
-           "import DafRel.Gen.OpsSupport", "import DafRel.Model.Apply", "",
-           "set_option linter.unusedVariables false", "", "namespace DafRel.Gen", "open DafRel", ""]
+           "import DafRel.Gen.OpsSupport", "import DafRel.Model.Apply"]
+    if module != "RelOps":
+        out.append("import DafRel.Gen.RelOps")
+    out += ["", "set_option linter.unusedVariables false", "", "namespace DafRel.Gen", "open DafRel", ""]
     jobs = [
         ("PartialJoin.columns_required", lambda: PJoinMethod(PartialJoin, "columns_required"),
          "def PartialJoin_columns_required (p : PJoin) : Cols :=\n  []"),
@@ -1100,6 +1198,8 @@ def gen_rel_ops(problems: list[str]) -> str:
         ("PartialJoin._begin_apply", lambda: PJoinBeginMethod(PartialJoin),
          "def PartialJoin_begin_apply (fuel : Nat) (p : PJoin) (target : Rel) (pref : Option Engine) : "
          "Except Err (PJoin × Engine) :=\n  Except.error Err.fuel"),
+        ("Select.apply_skip", lambda: SelectApplySkipMethod(__import__("lsst.daf.relation.sql", fromlist=["Select"]).Select),
+         "def Select_apply_skip (skipTo : Rel) (sl : Slots) : Except Err Rel :=\n  Except.error Err.fuel"),
         ("Join.applied_common_columns", lambda: JoinCommonMethod(r.Join),
          "def Join_applied_common_columns (j : JoinOp) (lcols rcols : Cols) : Except Err Cols :=\n"
          "  Except.error Err.fuel"),
@@ -1111,11 +1211,13 @@ def gen_rel_ops(problems: list[str]) -> str:
          "def Chain_begin_apply (lhs rhs : Rel) : Except Err BOp :=\n  Except.error Err.fuel"),
     ]
     for what, make, stub in jobs:
+        if REL_JOB_MODULE.get(what, "RelOps") != module:
+            continue
         try:
             out.append(make().lean())
         except Untranslatable as e:
-            problems.append(f"{what}: {e}")
-            out.append(stub + "  -- UNTRANSLATABLE: " + str(e))
+            problems.append(f"{what}: {' '.join(str(e).split())}")
+            out.append(stub + "  -- UNTRANSLATABLE: " + " ".join(str(e).split()))
         except Exception as e:  # noqa: BLE001
             problems.append(f"{what}: translator error {type(e).__name__}: {e}")
             out.append(stub + "  -- UNTRANSLATABLE")
